@@ -7,7 +7,7 @@ use crate::world::*;
 
 pub fn run(rep: &mut Rep) {
     let mut inbound = Vec::new();
-    for sub in [SubSel::Op(0), SubSel::Op(1), SubSel::Never, SubSel::Absent, SubSel::Both] {
+    for sub in [SubSel::Op(0), SubSel::Op(1), SubSel::Never, SubSel::Absent, SubSel::Both, SubSel::Repeat] {
         inbound.push((0u8, 0u16, false, sub));
         inbound.push((1, 1, false, sub));
         inbound.push((2, 2, false, sub));
@@ -27,7 +27,7 @@ pub fn run(rep: &mut Rep) {
     };
     let depth = if rep.quick() { 6 } else { 7 };
     rep.note(&format!(
-        "exhaustive: every path of <= {depth} actions over {{subscribe (<=2) / unsubscribe, SUBACK/UNSUBACK, inbound PUBLISH QoS 0/1/2 carrying the subscription identifier of stream A, of stream B, of both, a never-registered one or none (<= {} per path, including before SUBACK and before stream() is called), PUBREL, take stream, hold (lagging) / release stream, drop stream or response, cancel the subscribe future}}; every stream's item sequence compared with the model at every quiescent point",
+        "exhaustive: every path of <= {depth} actions over {{subscribe (<=2) / unsubscribe, SUBACK/UNSUBACK, inbound PUBLISH QoS 0/1/2 carrying the subscription identifier of stream A, of stream B, of both, of A-B-A (one identifier carried twice), a never-registered one or none (<= {} per path, including before SUBACK and before stream() is called), PUBREL, take stream, hold (lagging) / release stream, drop stream or response, cancel the subscribe future}}; every stream's item sequence compared with the model at every quiescent point",
         a.max_inbound
     ));
     for (k, ids) in [(0u64, None), (1, Some((300u16, 127u32))), (2, Some((65535u16, 16383u32))), (3, Some((1u16, 2097151u32)))] {
